@@ -92,7 +92,10 @@ theorem indexDoc_spec (cfg : Cfg) {s : State} {T : Table} (hi : Inv s T) (hs : S
     b'.lex = lex' ∧ WI b' ∧
     b'.docwords = AMap.set s.base.docwords d (Widcode.encode (idsOf lex' toks)) ∧
     (∀ w x, x ∈ posting b' w ↔ (x ≠ d ∧ x ∈ posting s.base w) ∨ (x = d ∧ w ∈ idsOf lex' toks)) ∧
-    b'.indexedCount = b'.docwords.length := by
+    b'.indexedCount = b'.docwords.length ∧
+    b'.totalDocLen = (if okapi then
+        s.base.totalDocLen - (((tokensOf T d).map List.length).getD 0 : Nat) + (toks.length : Nat)
+      else s.base.totalDocLen) := by
   intro toks lex' b'
   have hres := Lex.createAll_result hi.lex toks
   cases hsrc : Lex.sourceToWordIds cfg s.base.lex text with
@@ -138,7 +141,7 @@ theorem indexDoc_spec (cfg : Cfg) {s : State} {T : Table} (hi : Inv s T) (hs : S
         obtain ⟨k1, k2, k3, k4⟩ := addAll_frame b2 (LSet.diff (distinct ids) (distinct old)) d
         have hwi : WI b3 := wi_addAll (wi_delAll (hwi0 b1 rfl rfl) _ d) _ d
         rw [hb]
-        refine ⟨by show b3.lex = lx; rw [k1, g1], ⟨hwi.wf, hwi.nonempty, hwi.nodup, hwi.count⟩, ?_, ?_, ?_⟩
+        refine ⟨by show b3.lex = lx; rw [k1, g1], ⟨hwi.wf, hwi.nonempty, hwi.nodup, hwi.count⟩, ?_, ?_, ?_, ?_⟩
         · show AMap.set b3.docwords d _ = _
           rw [k2, g2, hids]
         · intro w x
@@ -160,6 +163,9 @@ theorem indexDoc_spec (cfg : Cfg) {s : State} {T : Table} (hi : Inv s T) (hs : S
           rw [k3, g3, k2, g2]
           show s.base.indexedCount = _
           rw [length_set_of_some hi.wfD hcode, hi.icount]
+        · show (if okapi then b3.totalDocLen + (ids.length : Nat) else b3.totalDocLen) = _
+          rw [k4, g4, hids]
+          cases okapi <;> simp [b1, old, idsOf]
     · -- new document
       have hdnone : AMap.get s.base.docwords d = none := by
         unfold AMap.contains at hc
@@ -183,7 +189,7 @@ theorem indexDoc_spec (cfg : Cfg) {s : State} {T : Table} (hi : Inv s T) (hs : S
       obtain ⟨k1, k2, k3, k4⟩ := addAll_frame b1 (distinct ids) d
       have hwi : WI b2 := wi_addAll (hwi0 b1 rfl rfl) _ d
       rw [hb]
-      refine ⟨by show b2.lex = lx; rw [k1], ⟨hwi.wf, hwi.nonempty, hwi.nodup, hwi.count⟩, ?_, ?_, ?_⟩
+      refine ⟨by show b2.lex = lx; rw [k1], ⟨hwi.wf, hwi.nonempty, hwi.nodup, hwi.count⟩, ?_, ?_, ?_, ?_⟩
       · show AMap.set b2.docwords d _ = _
         rw [k2, hids]
       · intro w x
@@ -205,12 +211,15 @@ theorem indexDoc_spec (cfg : Cfg) {s : State} {T : Table} (hi : Inv s T) (hs : S
         rw [k3, k2]
         show s.base.indexedCount + 1 = _
         rw [Lex.length_set_of_none hdnone, hi.icount]; simp
+      · show (if okapi then b2.totalDocLen + (ids.length : Nat) else b2.totalDocLen) = _
+        rw [k4, hids, htn]
+        cases okapi <;> simp [b1, idsOf]
 
 /-! ### the operations of `TextIndex` preserve the invariant -/
 
 theorem inv_unindex {s : State} {T : Table} (hi : Inv s T) (hs : Small s.base.lex) (okapi : Bool)
     (d : Int) : Inv (tUnindex okapi s d) (AMap.erase T d) := by
-  obtain ⟨h1, h2, h3, h4, h5⟩ := unindexDoc_spec hi hs okapi d
+  obtain ⟨h1, h2, h3, h4, h5, h6⟩ := unindexDoc_spec hi hs okapi d
   have hbase : (tUnindex okapi s d).base = unindexDoc okapi s.base d := rfl
   have hni : (tUnindex okapi s d).notIndexed = LSet.remove s.notIndexed d := rfl
   refine ⟨?_, ?_, AMap.WF_erase hi.wfT d, ?_, ?_, ?_, ?_, ?_, ?_, ?_⟩
@@ -272,7 +281,7 @@ theorem inv_index_some (cfg : Cfg) {s : State} {T : Table} (hi : Inv s T) (hs : 
     (okapi : Bool) (d : Int) (text : List Str) :
     Inv (step cfg okapi s (.index d (some text)))
       (AMap.set T d (some (Lex.runPipeline cfg.tables cfg.pipeline text))) := by
-  obtain ⟨h1, h2, h3, h4, h5⟩ := indexDoc_spec cfg hi hs okapi d text
+  obtain ⟨h1, h2, h3, h4, h5, h6⟩ := indexDoc_spec cfg hi hs okapi d text
   let toks := Lex.runPipeline cfg.tables cfg.pipeline text
   let lex' := (Lex.sourceToWordIds cfg s.base.lex text).1
   have hli : Lex.Inv lex' := Lex.inv_createAll hi.lex toks
